@@ -105,6 +105,11 @@ def big_cases(ctx):
         e = np.full(n, err) * (1.0 + 0.25 * (np.arange(n) % 3))
         spec.update(data_unit=unit, surveys=[dict(t=t.tolist(), rv=rv.tolist(), err=e.tolist())], err_unit=None, big=True)
         spec.pop("smp_units", None)
+        spec.pop("t_ref", None)
+        spec.pop("t_ref_scale", None)
+        # no trend terms: over a 900-day baseline dt^2 ~ 1e6 next to tight errors makes the problem ill-conditioned in double precision
+        # for the implementation's Woodbury form and for numpy's direct solve alike (disagreements of 1e-4 that are nobody's defect)
+        spec["n_poly"], spec["lin"] = 1, spec["lin"][:2]
         spec["theta"]["s"] = float(spec["theta"]["s"] != 0) * err / 2  # jitter comparable to the errors, or zero
         for p_ in spec["lin"]:  # priors in the data's unit
             f_old = 1.0 if p_["unit"].startswith("km/s") else 1000.0
